@@ -4,6 +4,7 @@ import (
 	"fmt"
 	"os"
 	"path/filepath"
+	"runtime"
 	"strings"
 	"sync"
 	"testing"
@@ -30,14 +31,16 @@ import (
 //
 // At the generated point a second goroutine performs 1..3 complete Puts (should the implementation
 // hold a lock there, the appends simply finish after the acknowledge, like a blocked goroutine
-// would; the clock only chooses between these two legal schedules). Then the process "restarts" in
+// would - and at every later meta-page event of the acknowledge they get another 2 ms to return, as
+// they would when the acknowledge released its lock half way; the clock only chooses between
+// legal schedules). Then the process "restarts" in
 // a generated way before anything else is appended: a directory image taken at the next meta-page
 // event of the still running acknowledge, an image right after it returned, a close/reopen, or no
 // restart at all. Model: every Put that returned keeps its sequence and bytes after the restart,
 // the appended sequence the restarted queue reports is the one of the last Put that returned, and
 // the next appends get the following sequences without touching anything.
 
-const ackSeamWait = 5 * time.Millisecond
+const ackSeamWait = 4 * time.Millisecond
 
 type ackSeamPlan struct {
 	point   int    // index of the meta-page event of the acknowledge at which the appender starts
@@ -123,6 +126,15 @@ func (w *world) recoverQuiescentImage(dir, label string, puts int, ackOneOf []in
 	}
 }
 
+func goroutineID() string {
+	var b [64]byte
+	s := string(b[:runtime.Stack(b[:], false)])
+	if i := strings.Index(s, " ["); i > 0 {
+		return s[:i]
+	}
+	return s
+}
+
 // opAckOverlappedByPuts: see the comment at the top of the file.
 func (w *world) opAckOverlappedByPuts() {
 	if w.q.AppendedSeq() <= w.q.AcknowledgedSeq() {
@@ -150,7 +162,6 @@ func (w *world) opAckOverlappedByPuts() {
 		mu         sync.Mutex
 		events     int  // meta-page events of the acknowledge seen so far
 		fired      bool // the appender was started
-		inB        bool // the appender may be running (its own meta-page events are not points)
 		doneInside bool // the appends returned while the acknowledge sat at the point
 		insideImg  string
 		insideErr  error
@@ -165,24 +176,34 @@ func (w *world) opAckOverlappedByPuts() {
 					break
 				}
 			}
-			mu.Lock()
-			inB = false
-			mu.Unlock()
 			done <- err
 		}()
 	}
+	acker := goroutineID() // the hook acts on the events of the acknowledging goroutine only
+	waitAppends := func(d time.Duration) {
+		select {
+		case err := <-done:
+			done <- err
+			mu.Lock()
+			doneInside = true
+			mu.Unlock()
+		case <-time.After(d):
+		}
+	}
 	qsim.SetHook(func(op, path string, before bool) {
-		if !strings.Contains(path, string(filepath.Separator)+"meta"+string(filepath.Separator)) {
+		if !strings.Contains(path, string(filepath.Separator)+"meta"+string(filepath.Separator)) || goroutineID() != acker {
 			return
 		}
 		mu.Lock()
-		if inB {
-			mu.Unlock()
-			return
-		}
 		if fired {
-			// the acknowledge goes on after the appends returned: the process dies here
-			if doneInside && p.restart == "image-inside" && insideImg == "" && insideErr == nil {
+			switch {
+			case !doneInside:
+				// the appender had to wait at the generated point: the implementation may let it in
+				// from here on (it released a lock): a blocked goroutine would run now
+				mu.Unlock()
+				waitAppends(ackSeamWait / 2)
+			case p.restart == "image-inside" && insideImg == "" && insideErr == nil:
+				// the acknowledge goes on after the appends returned: the process dies here
 				insideImg = filepath.Join(imgDir, "inside")
 				insideAt = fmt.Sprintf("%s (before=%v)", op, before)
 				mu.Unlock()
@@ -191,9 +212,9 @@ func (w *world) opAckOverlappedByPuts() {
 					insideErr = err
 					mu.Unlock()
 				}
-				return
+			default:
+				mu.Unlock()
 			}
-			mu.Unlock()
 			return
 		}
 		k := events
@@ -202,17 +223,10 @@ func (w *world) opAckOverlappedByPuts() {
 			mu.Unlock()
 			return
 		}
-		fired, inB = true, true
+		fired = true
 		mu.Unlock()
 		runAppends()
-		select {
-		case err := <-done:
-			done <- err
-			mu.Lock()
-			doneInside = true
-			mu.Unlock()
-		case <-time.After(ackSeamWait):
-		}
+		waitAppends(ackSeamWait)
 	})
 	w.q.SetAcknowledgedSeq(p.to)
 	qsim.SetHook(nil)
@@ -221,7 +235,7 @@ func (w *world) opAckOverlappedByPuts() {
 	if !fired {
 		// the acknowledge made fewer meta-page stores than the generated point (a refused
 		// acknowledge makes none): the appender runs right after it
-		fired, inB = true, true
+		fired = true
 	}
 	mu.Unlock()
 	if !reached {
